@@ -1283,8 +1283,18 @@ class FunctionTerms:
                 members = self.prog.int_enum_members(self.prog.chase(args[0][1]))
                 if members is not None:
                     return ("const", len(members))
+            # functools.reduce(lambda acc, x: F(acc, x), (e1, .., ek), init) over a display of at most 6 elements is F(..F(F(init, e1), e2).., ek)
+            if f == ("global", "functools.reduce") and len(args) == 3 and not kws and args[0][0] == "lambda" and len(args[0][1]) == 2 \
+                    and args[1][0] in ("tuple", "list") and 1 <= len(args[1][1]) <= 6 and not any(x[0] == "star" for x in args[1][1]):
+                acc = args[2]
+                for x in args[1][1]:
+                    acc = _splice_stars(_substitute(args[0][2], {args[0][1][0]: acc, args[0][1][1]: x}))
+                return acc
             # functools.reduce(operator.add, it, 0) is sum(it)
-            if f == ("global", "functools.reduce") and len(args) == 3 and not kws and args[2] == ("const", 0) and (
+            zero = len(args) == 3 and (args[2] in (("const", 0), ("const", 0.0)) or (
+                args[2][0] == "call" and len(args[2][2]) == 1 and args[2][2][0] in (("const", 0), ("const", 0.0)) and not args[2][3]
+                and args[2][1][0] == "global" and args[2][1][1].rsplit(".", 1)[-1] in ("float", "float64", "Value")))
+            if f == ("global", "functools.reduce") and len(args) == 3 and not kws and zero and (
                     args[0] == ("global", "operator.add") or (args[0][0] == "lambda" and len(args[0][1]) == 2 and args[0][2] in (
                         ("bin", "+", args[0][1][0], args[0][1][1]), ("bin", "+", args[0][1][1], args[0][1][0])))):
                 return ("call", ("global", "sum"), (args[1],), ())
